@@ -1290,7 +1290,7 @@ Proof.
   intros c reqs. induction reqs as [|b reqs IH]; intros s out s' D H; cbn [run] in H; [inversion H; reflexivity|].
   unfold request in H. rewrite D in H. cbn iota in H.
   match type of H with context [run c ?s1 reqs] => destruct (run c s1 reqs) as [o2 s2] eqn:R2 end.
-  inversion H; subst. cbn [names_of]. exact (IH _ _ _ eq_refl R2).
+  inversion H; subst. cbn [names_of]. refine (IH _ _ _ _ R2). reflexivity.
 Qed.
 
 Definition keeps_num (b : list (str * str)) : Prop := forall v, lookup k_num v = None -> lookup k_num (update v b) = None.
@@ -1349,10 +1349,13 @@ Proof.
     + destruct (IH _ H) as [E|[w3 [A B]]]; [left; exact E|right; exists w3; split; [right; exact A|exact B]].
 Qed.
 
+Lemma firstn_In' {A} : forall n (l : list A) x, In x (firstn n l) -> In x l.
+Proof. induction n as [|n IH]; intros [|y l] x H; cbn in *; try contradiction. destruct H as [H|H]; [left; exact H|right; exact (IH _ _ H)]. Qed.
+
 Lemma limitf_chars : forall d v ch, In ch (limitf d v) -> ch = 32 \/ In ch v.
 Proof.
   intros d v ch H. unfold limitf in H. destruct (join_sp_chars _ _ H) as [E|[w [A B]]]; [left; exact E|]. right.
-  apply firstn_In in A. destruct (split_words_chars _ _ _ _ A B) as [[]|C]. exact C.
+  apply firstn_In' in A. destruct (split_words_chars _ _ _ _ A B) as [[]|C]. exact C.
 Qed.
 
 Definition clean (bad s : str) : Prop := forall ch, In ch s -> ~ In ch bad.
